@@ -301,6 +301,10 @@ func (a *Box2) lineIntersect(l *Line2) *Line2 {
 	var pSet []v2.Vec
 	for _, t := range tSet {
 		p := u.Add(v.MulScalar(t))
+		if t == 1 {
+			// the end point itself: u + v can differ from l[1] in the last bit
+			p = l[1]
+		}
 		p = a.Snap(p, tolerance)
 		// is the point in the box?
 		if a.Contains(p) {
